@@ -6,6 +6,8 @@ import xml.etree.ElementTree as ET
 b = json.load(open("/root/.vp/BASELINE.json"))
 fd, path = tempfile.mkstemp(suffix=".xml"); os.close(fd)
 cmd = b["cmd"].replace("<file>", path)
+if os.environ.get("REPO"):
+    cmd = cmd.replace("cd /repo", "cd " + os.environ["REPO"])
 env = dict(os.environ); env.pop("PROV_VERIF", None)
 p = subprocess.run(cmd, shell=True, stdout=subprocess.PIPE, stderr=subprocess.STDOUT, env=env)
 passed = set()
